@@ -111,6 +111,8 @@ def stats_of(cases):
                 misc["no_callback_by_" + a] += 1
             if s["exp"]["out"] == "full":
                 misc["buffer_is_full"] += 1
+            if s["exp"]["out"] == "thrown":
+                misc["callback_threw_%d_in_%s" % (s["args"]["th"], a)] += 1
         if c["fin"]:
             misc["nested_left_at_end"] += 1
         last = c["steps"][-1]["exp"]["cur"]
@@ -187,6 +189,8 @@ def run_part(ctx):
     for m in ("move_with_open_builder", "purge_with_moves_mode_internal", "purge_with_moves_while_nested",
               "nested_buffer_purged_with_moves", "copy_from_source_with_open_builder", "callback_fired_by_CbPossiblyFlush",
               "no_callback_by_CbPossiblyFlush", "callback_fired_by_CbFlush", "multipolygon_committed",
+              "callback_threw_1_in_CbFlush", "callback_threw_2_in_CbFlush", "callback_threw_1_in_CbPossiblyFlush",
+              "callback_threw_2_in_CbPossiblyFlush",
               "inner_ring_before_first_outer", "nested_left_at_end"):
         if not misc[m]:
             missing.append(m)
